@@ -156,7 +156,7 @@ def meta(tier):
                 'expressions around placeholders), as the only variant and as the second of two variants; invocations: every '
                 'combination of operand alternatives (literals, backward and forward labels, label expressions, registers); '
                 'oracle: image(program with macro) == image(program with the invocation replaced by the substituted steps), both '
-                'assembled by the real code; unfillable placeholders must be rejected; macro names defined in lower / upper / mixed case x invocations in lower / upper / defined spelling; non-trivial = macro with >=2 steps or a '
+                'assembled by the real code; unfillable placeholders must be rejected (also when a later variant would accept the same operands); macro names defined in lower / upper / mixed case x invocations in lower / upper / defined spelling; non-trivial = macro with >=2 steps or a '
                 'forward reference; three invocations of one macro in one program whose operands differ in letter case or spacing only (7 operand pairs x 4 step lists); twin definitions: an instruction and a macro with the same sequence of 1..2 (thorough 3) variant layouts out of 8 '
                 '(no operands, an empty operand, operand sets, listed combinations, a listed combination with a trailing empty operand, both) x 7 '
                 'operand texts must match the same variant or both be rejected; states = distinct macro definitions',
@@ -233,12 +233,17 @@ def shard(acc, tier, idx, n):
                             acc.sample({'macro': macros, 'invocation': inv, 'expanded': expanded, 'image': o2.image.hex()})
         # unfillable placeholders
         for bad in BAD_TEMPLATES.get(pname, []):
-            for pos in (0, 1):
+            for pos, later in itertools.product((0, 1), (False, True)):
                 ctr += 1
                 if ctr % n != idx:
                     continue
                 steps = [tpls[0], bad] if pos else [bad, tpls[0]]
-                isa = isa_with({'mac': [{'operands': {'count': len(sets), 'operand_sets': {'list': sets}}, 'instructions': steps}]})
+                variants = [{'operands': {'count': len(sets), 'operand_sets': {'list': sets}}, 'instructions': steps}]
+                if later:
+                    # a later variant that would accept the same operands: the variant chosen by operand matching is the first one, and it
+                    # cannot be expanded - the invocation is rejected, not handed on
+                    variants.append({'operands': {'count': len(sets), 'operand_sets': {'list': sets}}, 'instructions': [tpls[0], 'nop']})
+                isa = isa_with({'mac': variants})
                 ops = [a[0] for a in alts]
                 inv = 'mac ' + ', '.join(o[0] for o in ops)
                 case = Case(isa, program(inv))
@@ -248,7 +253,7 @@ def shard(acc, tier, idx, n):
                 m = judge_expect(spec, [out])
                 if m:
                     acc.violation([case], spec, f'{inv!r} with steps {steps}: {m}', [out])
-                acc.judge(clause='unfillable-rejected', nontrivial_key=(pname, bad, pos))
+                acc.judge(clause='unfillable-rejected', nontrivial_key=(pname, bad, pos, later))
 
 
 def macro_name_case(acc, idx, n):
